@@ -28,23 +28,21 @@ func sortKeysOperator(d *dataTreeNavigator, context Context, expressionNode *Exp
 }
 
 func sortKeys(node *CandidateNode) {
-	keys := make([]string, len(node.Content)/2)
-	keyBucket := map[string]*CandidateNode{}
-	valueBucket := map[string]*CandidateNode{}
-	var contents = node.Content
-	for index := 0; index < len(contents); index = index + 2 {
-		key := contents[index]
-		value := contents[index+1]
-		keys[index/2] = key.Value
-		keyBucket[key.Value] = key
-		valueBucket[key.Value] = value
+	// sort the entries themselves (stably): keys are not unique as text, a map may hold
+	// 1 and "1", or the same key twice, and every entry has to survive
+	type entry struct {
+		key   *CandidateNode
+		value *CandidateNode
 	}
-	sort.Strings(keys)
-	sortedContent := make([]*CandidateNode, len(node.Content))
-	for index := 0; index < len(keys); index = index + 1 {
-		keyString := keys[index]
-		sortedContent[index*2] = keyBucket[keyString]
-		sortedContent[1+(index*2)] = valueBucket[keyString]
+	var contents = node.Content
+	entries := make([]entry, 0, len(contents)/2)
+	for index := 0; index+1 < len(contents); index = index + 2 {
+		entries = append(entries, entry{contents[index], contents[index+1]})
+	}
+	sort.SliceStable(entries, func(i, j int) bool { return entries[i].key.Value < entries[j].key.Value })
+	sortedContent := make([]*CandidateNode, 0, len(contents))
+	for _, e := range entries {
+		sortedContent = append(sortedContent, e.key, e.value)
 	}
 
 	// re-arranging children, no need to update their parent
